@@ -304,6 +304,12 @@ func runC02(c *Ctx) {
 				sp, siv := gen.GoHeader(r, gen.HeaderOpts{Protected: true, MaxEntries: 3, Alg: &a, AlgSpell: r.Intn(5), FillTo: mon.Pick(r, 0, 0, 16, 240)}, false)
 				su, _ := gen.GoHeader(r, gen.HeaderOpts{MaxEntries: 2}, siv != 0)
 				m.Signatures = append(m.Signatures, &cose.Signature{Headers: cose.Headers{Protected: sp, Unprotected: su}})
+				if len(ext) > 0 && r.Intn(4) == 0 {
+					// with external data a signer needs no header at all: a zero Signature (nil maps), possibly
+					// right after a signer that has one - its sign_protected is the empty byte string
+					m.Signatures[j] = &cose.Signature{}
+					rec.Event("constructed:zero-value-signature-slot")
+				}
 				spies[j] = &mon.SpySigner{Alg: a}
 				signers[j] = spies[j]
 			}
